@@ -53,10 +53,6 @@ where
         n += len;
     }
 
-    if has_pending_cr {
-        buf.push(CARRIAGE_RETURN);
-    }
-
     Ok(n)
 }
 
